@@ -1,35 +1,35 @@
 #![allow(unused, dead_code)]
 use bytes::Bytes;
 use super::__verif_common::*;
-use crate::packet::{Subpacket, SubpacketData, SubpacketLength};
 use crate::ser::Serialize;
-use crate::types::{Timestamp, KeyId};
+use crate::types::StringToKey;
 
-fn spin(n: usize) -> usize { let mut i = 0; let mut s = 0; while i < 3 { s += n; i += 1; } s }
-fn arm(d: &SubpacketData) -> usize {
-    match d {
-        SubpacketData::SignatureCreationTime(_) => 1,
-        SubpacketData::Notation(n) => spin(2),
-        SubpacketData::EmbeddedSignature(_) => spin(3),
-        SubpacketData::PolicyURI(s) => spin(s.len()),
-        _ => spin(4),
+vproof!(q1_parse_only, 6, {
+    let b: [u8; 2] = kani::any();
+    let mut rd = &b[..];
+    let r = okf(StringToKey::try_from_reader(&mut rd));
+    if let Some(s) = r { assert!(s.id() == b[0]); core::mem::forget(s); }
+});
+vproof!(q2_parse_write, 6, {
+    let b: [u8; 2] = kani::any();
+    let mut rd = &b[..];
+    let r = okf(StringToKey::try_from_reader(&mut rd));
+    if let Some(s) = r {
+        let mut w = FixW::<24>::new();
+        assert!(is_okf(s.to_writer(&mut w)));
+        assert!(w.len == s.write_len());
+        core::mem::forget(s);
     }
-}
-vproof!(p1_match_direct, 5, {
-    let t: u32 = kani::any();
-    let d = SubpacketData::SignatureCreationTime(Timestamp::from_secs(t));
-    assert!(arm(&d) == 1);
-    core::mem::forget(d);
 });
-vproof!(p2_match_in_subpacket, 5, {
-    let t: u32 = kani::any();
-    let sp = Subpacket { is_critical: false, data: SubpacketData::SignatureCreationTime(Timestamp::from_secs(t)), len: SubpacketLength::One(5) };
-    assert!(arm(&sp.data) == 1);
-    core::mem::forget(sp);
-});
-vproof!(p3_write_len, 5, {
-    let t: u32 = kani::any();
-    let d = SubpacketData::SignatureCreationTime(Timestamp::from_secs(t));
-    assert!(d.write_len() == 4);
-    core::mem::forget(d);
+vproof!(q3_parse_write_simple_only, 6, {
+    let b: [u8; 2] = kani::any();
+    kani::assume(b[0] == 0);
+    let mut rd = &b[..];
+    let r = okf(StringToKey::try_from_reader(&mut rd));
+    if let Some(s) = r {
+        let mut w = FixW::<24>::new();
+        assert!(is_okf(s.to_writer(&mut w)));
+        assert!(w.len == s.write_len());
+        core::mem::forget(s);
+    }
 });
